@@ -363,13 +363,14 @@ func (d *DotGit) DeleteReflog(name plumbing.ReferenceName) error {
 // NewObjectPack return a writer for a new packfile, it saves the packfile to
 // disk and also generates and save the index for the given packfile.
 func (d *DotGit) NewObjectPack() (*PackWriter, error) {
-	cleanErr := d.cleanPackList()
+	// Only the cached pack list goes stale when a pack is added; the cached
+	// pack handles keep addressing files that stay in place, and closing
+	// them here would fail every read in flight on another goroutine with
+	// "file already closed".
+	d.forgetPackList()
 	pw, err := newPackWrite(d.fs, d.options.ObjectFormat, d.options.WriteReverseIndex)
 	if err != nil {
-		return nil, errors.Join(cleanErr, err)
-	}
-	if cleanErr != nil {
-		return nil, cleanErr
+		return nil, err
 	}
 	if d.options.ExclusiveAccess {
 		// A lookup made while the writer is open regenerates the cached
